@@ -20,12 +20,14 @@ MANIFEST = {
             "(keys, [i] indices, through dicts, embedded objects and lists at any nesting) that resolves in the object, "
             "whatever value is stored there; a _refuted theorem with a concrete witness for each deviation of the pinned "
             "code (falsy value, repeated list element, embedded object, list in list, upper-case key syntax). The model "
-            "is tied to /repo on every run by a correspondence run through stix2.markings.* functions, the same-named "
+            "is tied to /repo on every run by translators/tr_markings.py (variant sites, control-flow skeletons and the "
+            "SELECTOR_REGEX text read from the ast, fail closed; Props/C08Src.v instantiates the theorems at that variant) "
+            "and by a correspondence run through stix2.markings.* functions, the same-named "
             "methods, construction and parse, with the variant selected by running each witness on the implementation.",
     "design_ref": "DESIGN.md 6/C07-C08",
     "note": "Trusted: Coq kernel + vm_compute; the hand-written model (checked by correspondence, not translated); the "
             "harness's tree dump of constructed objects and its independent path resolver. Marking ids are assumed "
-            "well-formed; \\d of SELECTOR_REGEX is modelled for ASCII digits.",
+            "well-formed; \\d of SELECTOR_REGEX is the 680 Unicode Nd code points (table compared with the regex on every run).",
     "technique": "Coq proof over a hand-written executable model + correspondence run + oracle search",
 }
 
